@@ -15,7 +15,11 @@ Definition lock_whole_file : bool := true.
 Definition lock_free_exits : bool := false.
 Definition lock_free_unlinks : N := 0.
 (* lock_create when F_SETLK answers EAGAIN: exits?; unlink calls made before exiting *)
+(* ... whatever F_GETLK answers before or after (holder named / file found unlocked) *)
 Definition lock_busy_exits : bool := true.
+(* lock_create queries the lock (F_GETLK) before its first F_SETLK; exits when the query or the refused F_SETLK names a holder *)
+Definition lock_getlk_first : bool := false.
+Definition lock_getlk_held_exits : bool := true.
 Definition lock_busy_unlinks : N := 0.
 (* permission bits (of a regular file owned by the caller) that _lock_stat accepts *)
 Definition lock_stat_accepts : list N := [128].
@@ -42,3 +46,7 @@ Definition seed_open_excl : bool := false.
 Definition seed_create_mode : N := 384.
 Definition seed_write_creates_missing : bool := true.
 Definition seed_write_renews_existing : bool := true.
+(* munged.c, translated from the text: main() first makes descriptors 0-2 open (sanitize_std_fds: open /dev/null
+   until the descriptor is > 2, close the last one); daemonize_fini dup2()s /dev/null onto these descriptors *)
+Definition main_sanitizes_std_fds : bool := true.
+Definition fini_dup2_targets : list nat := [0%nat; 1%nat; 2%nat].
